@@ -179,5 +179,6 @@ package kvql
 //
 //@ func (p *EmptyResultPlan) Batch(ctx *ExecuteCtx) (rows []KVPair, err error)
 //@   props C13 C18
+//@   ensures[C13] norows: err != nil ==> len(rows) == 0
 //@   assigns nothing
 //@   ensures[C18] noread: err == nil && len(rows) == 0 && nops == old(nops)
